@@ -4,10 +4,10 @@ from concurrent.futures import ThreadPoolExecutor
 import vf
 
 
-def launch(gram, cmd, path, timeout=30):
+def launch(gram, cmd, path, timeout=30, retry=True):
     # a launch that does not finish is tried once more with a much longer limit: on a saturated machine a slow launch must not
     # be mistaken for a hang (-999 is reported only when the second, long, attempt does not finish either)
-    for limit in (timeout, timeout * 20):
+    for limit in ((timeout, timeout * 20) if retry else (timeout,)):
         try:
             r = subprocess.run([gram, cmd, path], stdout=subprocess.PIPE, stderr=subprocess.PIPE, timeout=limit)
             return r.returncode, r.stdout, r.stderr
@@ -27,7 +27,7 @@ def run_files(files, cmds, launches, out_path, divergent=()):
     gram = vf.build_gram()
     jobs = [(fid, p, cmd, k) for fid, p in files for cmd in cmds for k in range(launches)]
     with ThreadPoolExecutor(max_workers=14) as ex:
-        res = list(ex.map(lambda j: (j, launch(gram, j[2], j[1])), jobs))
+        res = list(ex.map(lambda j: (j, launch(gram, j[2], j[1], retry=j[0] not in divergent)), jobs))
     evs = [event(fid, cmd, rc, out, err, fid in divergent) for (fid, p, cmd, k), (rc, out, err) in res]
     with open(out_path, "w") as f:
         for e in evs:
